@@ -1,4 +1,15 @@
+mod c28;
+mod c29;
+mod c30;
+mod c53;
+mod tmpl;
+mod walk;
+
 fn main() {
-    eprintln!("no sub-commands yet");
-    std::process::exit(2);
+    vf_kit::dispatch! {
+        "c28" => c28::C28,
+        "c29" => c29::C29,
+        "c30" => c30::C30,
+        "c53" => c53::C53,
+    }
 }
